@@ -217,6 +217,11 @@ class EntryInterpreter:
                     return c_fmod(self.eval(e.args[0], st))
             if name == "float" and len(e.args) == 1:
                 return self.eval(e.args[0], st)
+            # a routine that is not interpreted applied to (something computed from) the coordinate: the result is whatever that
+            # routine does -- undecided here, not a wrong range
+            if (name or "").split(".")[-1] not in ("correct_position_entry", "correct_separation_entry", "next_image") and \
+                    any(isinstance(x, ast.Name) and x.id in st.env for a_ in e.args for x in ast.walk(a_)):
+                raise Undecided(f"call of `{name}` not interpreted")
             return top()
         if isinstance(e, ast.IfExp):
             raise Undecided("conditional expression outside return/assign")
